@@ -41,7 +41,10 @@ GEN = ("rapid draws a Case = generated topology (1-4 pools over 2-4 node subnets
        "filter/bind/phase/delete/deliver or drop informer event/run queued unbind/resync/pod-IP sync/scale/delete app/API release/pool API/"
        "reserve/restart/lister sync/quiesce, phrases of such ops, and concurrent episodes of 2-4 actors - requests, event handlers, "
        "resync, reload and the informer's cache update - interleaved by the cooperative scheduler at every lister/IPAM/API/provider "
-       "call, with uniform, bursty, nested and lock-convoy schedule shapes); lister lag in 1/3 of the cases; multi-IP "
+       "call, with uniform, bursty, nested and lock-convoy schedule shapes); inside an episode a controller may CREATE the next incarnation "
+       "of a pod and have it scheduled (newsched), an administrator may release an entry the list API shows as releasable, and event "
+       "delivery / unbind may pick their target when they run; half of the histories draw operation and phrase kinds flat (weights mean "
+       "what they say), half with rapid's small-index bias (creation-heavy); lister lag in 1/3 of the cases; multi-IP "
        "(request_ip_range) workloads in 1/4. ")
 
 CHECKS.update({
@@ -85,16 +88,19 @@ CHECKS["C05"] = {"pkg": "ipamsim", "test": "TestC05", "level": "fault_enumeratio
 
 CHECKS["C07"] = hist("TestC07", "rapid draws topologies, 1-3 deployments sharing named pools that have a Pool object of size 0-4, pods with unique names "
     "(deployment pods never reuse a name), and histories whose concurrent episodes run 2-3 of: Filter of different pods, schedule, "
-    "POST /v1/pool with preAllocateIP, pool size update, unbind - interleaved by the cooperative scheduler at every lister/IPAM/API call. "
+    "POST /v1/pool with preAllocateIP, pool size update, unbind - interleaved by the cooperative scheduler at every lister/IPAM/API call; "
+    "a quarter of the histories carry one failing API-server call (internal/conflict/timeout) of one operation. "
     "Oracle after every op and every scheduler step: #IPs keyed under pool__<name>_ <= max(count when the op/episode started, largest "
     "size in force in truth or lister during it, or since the successful filter of a pod of the pool whose bind is still to come - a scheduling attempt is filter + bind, and a pool without Pool object is capped by replicas, not by a size). Non-trivial = an episode in which >= 2 ops overlapped; distinct by SHA-1 of the case.",
     quick=5000, thorough=120000, floors={"episode_overlapped": 0.2, "pre_allocation": 0.1}, enum=True)
 CHECKS["C09"] = hist("TestC09", GEN + "Sequences of 2-4 configurations (ranges shrink/grow/move, pools disappear, node subnets change), "
-    "administrator reservations (labelled FloatingIP) whose watch event is delivered early/late/never, and episodes running one reload "
+    "administrator reservations (labelled FloatingIP) whose watch event is delivered early/late/never, 0-2 reservation stories per history "
+    "(reserve; add event before / after / never relative to the next scheduling, or across a reload; then the reservation is withdrawn "
+    "with its delete event before / after the next scheduling, or across a reload), and episodes running one reload "
     "concurrently with schedule/bind/unbind/API release/pod-IP sync/reservation events. Oracle: no allocation or binding of a reserved or "
     "unconfigured IP at any step; after every reload (and every episode containing one) memory == store for every configured IP, no "
     "table entry or FloatingIP object outside the configuration. Non-trivial = a reload dropped >=1 allocated IP and kept >=1, or a "
-    "reload overlapped another operation.", quick=5000, thorough=120000, floors={"reservation": 0.03, "reload_dropped_and_kept": 0.03},
+    "reload overlapped another operation.", quick=5000, thorough=120000, floors={"reservation": 0.3, "reload_dropped_and_kept": 0.03},
     enum=True, extra_assume=["at most one reload, one resync/pod-IP-sync pass and one informer event handler run at a time (single goroutine sources in galaxy-ipam)"])
 
 IPAM_ASSUME = ["fake API server (client-go object tracker); pre-states are built through the real IPAM (AllocateSpecificIP)",
@@ -160,6 +166,7 @@ CHECKS["C13"] = {"pkg": "galaxysim", "test": "TestC13", "level": "exploration",
 E3_ASSUME = ["strict iptables/ipset fakes (/verif/harness/nf) with kernel-faithful acceptance rules: atomic iptables-restore --noflush per table, a chain line creates or flushes, -A needs the chain, jump targets and matched sets must exist, -X fails on referenced or non-empty chains, ipset destroy fails while referenced, hash:net rejects /0 and keeps nomatch",
              "the iptables half of the fake is cross-checked against the real iptables-restore in a private network namespace (setup_extra.sh); ipset semantics are modelled from its documentation (no ipset binary here)"]
 CHECKS["C14"] = {"pkg": "netsim", "test": "TestC14", "level": "exploration",
+    "extra_builds": [{"pkg": "cmd/fakecni", "out": "fakecni"}],
     "quick": {"checks": 4000, "shards": 4, "timeout": 900}, "thorough": {"checks": 48000, "shards": 8, "timeout": 2400},
     "rule": "rapid draws 1-6 pods x 0-4 ports (explicit host ports taken from currently free kernel ports, random host port 0, tcp/udp in mixed "
             "case, host IP empty or set), 0-2 other pods with live mappings, prior NAT tables with 0-3 foreign chains/rules and 0-3 stale "
@@ -167,7 +174,16 @@ CHECKS["C14"] = {"pkg": "netsim", "test": "TestC14", "level": "exploration",
             "table == full sync from empty (own chains), exactly one rule+DNAT chain per port, idempotent, foreign chains byte-identical, "
             "no rejected batch; Clean(p) removes exactly p's chains/rules, Setup(p);Clean(p) restores the table; handed-out ports distinct "
             "per protocol, bind() fails while held and succeeds after CloseHostports; a setup with one port taken fails and leaves every "
-            "port it opened bindable. In a third of the cases a pod with random ports only is set up a second time without a teardown in between: the ports handed out by the second setup must be > 0 and held. Non-trivial = stale galaxy chains and foreign rules present, >=2 pods, >=1 port.",
+            "port it opened bindable. A THIRD OF THE CASES runs one level up, against the galaxy daemon's request path (pkg/galaxy/server.go: "
+            "setupPortMapping / cleanupPortMapping / cleanIPtables / setupIPtables): 1-4 pods with 0-3 container ports (explicit host ports "
+            "from a universe of 4 so that pods collide, host port 0 with/without the port-mapping annotation, host IP), an unrelated "
+            "process holding a port, and 2-12 operations: CNI ADD (the fake plugin or the n-th iptables call may fail; a failed ADD is "
+            "followed by kubelet's DEL), CNI DEL (the n-th iptables call may fail; retried), daemon restart (sockets die, a new instance "
+            "runs the real start-up synchronisation on the same API objects and nat table), the GC's clean callback for dead containers. "
+            "After every operation: every live pod's recorded host ports are bound by galaxy and pairwise distinct, no other port of the "
+            "universe and no random port handed out earlier is bound, the nat table holds exactly the mappings of the live pods (pod IP = "
+            "what the plugin reported), foreign chains byte-identical, the saved port file exists iff the container is live with ports, the "
+            "annotation equals what was set up; right after a failed ADD none of its ports is bound; after the final teardown nothing is left. In a third of the cases a pod with random ports only is set up a second time without a teardown in between: the ports handed out by the second setup must be > 0 and held. Non-trivial = stale galaxy chains and foreign rules present, >=2 pods, >=1 port.",
     "assumptions": E3_ASSUME + ["every C14 test process re-executes itself in a private network namespace (unshare -n) so that parallel shards and unrelated processes cannot take a host port between two steps; without namespace support it stays in the shared namespace (class private_netns shows which)", "EnsureBasicRule/full sync ran before per-pod Setup/Clean (as galaxy does at start-up)",
                                 "an explicit port lost to another process between selection and use makes the case inconclusive (counted in coverage.extra)"],
     "floors": {"stale_galaxy_chains": 0.3, "foreign_rules": 0.3}}
@@ -245,8 +261,8 @@ CHECKS["C19"] = {"pkg": "racesim", "test": "TestC19", "level": "exploration", "r
     "rule": "rapid draws operation mixes for 4-12 free-running goroutines on shared instances, in a binary built with -race: (a) galaxy-ipam: "
             "Filter, Filter+Bind (one bind per pod), Preempt, pod update/finish/delete events feeding 5 unbind loops, resync and pod-IP sync "
             "(one goroutine), /v1/ip list and release, pool create/update with pre-allocation, ConfigMap reload (one goroutine), Prometheus "
-            "Gather on the IPAM collector, recording cloud provider; (b) galaxy: concurrent CNI ADD/DEL of multi-network pods through the real "
-            "handler and fake plugins, policy manager add/update/delete/pod events and full syncs on the mutex-protected strict fakes, "
+            "Gather on the IPAM collector, recording cloud provider; (b) galaxy: concurrent CNI ADD/DEL of multi-network pods (networks from the json configuration and networks that exist only as "
+            "files of the network conf dir, resolved per request) through the real handler and fake plugins, policy manager add/update/delete/pod events and full syncs on the mutex-protected strict fakes, "
             "port-mapping open/close/setup/clean/full sync. Oracle: Go race detector reports (GORACE halt_on_error=0), attributed to galaxy "
             "only when the innermost non-runtime frame of both access stacks lies in /repo (harness frames => inconclusive), de-duplicated "
             "by the unordered pair of frames; runtime fatal errors (concurrent map access) end the process and are reported too. "
